@@ -27,7 +27,7 @@ KNOWN_FIELDS = ('options', 'path', 'normal_output', 'low_priority_output', 'usin
 
 PROBE_SHEETS = [
     ('.a .b{width:75rpx}', {'class_prefix': 'p'}), ('.a{x:y}', {'class_prefix': 'é'}), ('.a .b>.c{x:y}', {'class_prefix': '中文'}),
-    ('.a{x:y}.b{z:w}', {'class_prefix': ''}), ('.md\\:flex .w-1\\/2:not(.\\31 0px){x:y}', {'class_prefix': 'p'}), ('.a\\.b{x:y}', {'class_prefix': 'p', 'class_prefix_sign': 'S'}), ('.x .y{a:b}', {'class_prefix': '\U0001F600'}),
+    ('.a{x:y}.b{z:w}', {'class_prefix': ''}), ('.\\31  .b{x:y}:is(.-\\32  .c){z:w}', {}), ('.a\\9  .b{x:y}', {}), ('.md\\:flex .w-1\\/2:not(.\\31 0px){x:y}', {'class_prefix': 'p'}), ('.a\\.b{x:y}', {'class_prefix': 'p'}), ('.x .y{a:b}', {'class_prefix': '\U0001F600'}),
     (':host{c:d}', {'convert_host': True}), (':/**/host{c:d}.a{e:f}', {'convert_host': True, 'class_prefix': 'p'}), (':\\68ost{c:d}', {'convert_host': True}),
     ('@media (a){:hos\\74{c:d}}', {'convert_host': True, 'host_is': 'h'}), (':host{c:d}', {'convert_host': False}),
     ('@media (a){@supports (b){:host{c:d}}}@media (e){@supports (b){:host{f:g}}}', {'convert_host': True}),
